@@ -131,6 +131,7 @@ pub fn run_case(line: &str) -> String {
         "bs" => crate::ports::output::bscen::run(&w[1..]),
         "tsc" => crate::tsetscen::run(&w[1..]),
         "inj" => run_inj(&w[1..]),
+        "aes" => crate::aescen::run(&w[1..]),
         k => format!("ERR unknown-kind {}", k),
     }
 }
